@@ -708,10 +708,10 @@ def sweep_hms(ctx, tie):
             continue
         for base, delta in combos:
             if base == 0 and k == 0 and delta < 0:
-                continue
+                continue                            # a negative serial: see the fixed list below
             res = check_hms(ctx, LIB, base, k, delta)
+            ctx.case(None)
             tie(check_hms, (base, k, delta), res[1])
-        ctx.case(None, n=len(combos))
     if ctx.shard == 0:
         for base, k, delta in ((0, 0, -0.25), (0, 0, -8640.0), (-1, 0, 0.0), (-1, 43200, 0.0),
                                (MAX + 1, 43200, 0.0), (MAX + 1, 0, 0.0), (1000000, 3661, 0.0)):
